@@ -65,6 +65,7 @@ class Node(object):
         self.reneging = node.reneging
         self.dynamic_classes = node.class_change_time
         self.next_class_change_date = float("Inf")
+        self.next_class_change_ind = None
         self.next_individual = None
 
     @property
